@@ -276,6 +276,12 @@ def cases_for(op, seed):
             cmds = [(0, 1, rounds, N), (1, 1, 3, H2), (3, 1, 4, N), (0, 1, 1, N), (1, 2, 3, N), (3, 1, 3, ("Q", N, H2)), (1, 1, 1, N)]
             prog = ";".join("%d,%d,%d,%s" % (ty, h, d, " ".join(tree_tokens(t))) for ty, h, d, t in cmds)
             yield ("opt.cmp\t%s" % prog, ("selfeq",), {"op": "run unoptimised vs optimised level 2", "commands(type,syllables,dots,area)": prog})
+        # the same loops printing a character in every round (output produced during speculative execution)
+        for rounds in (5, 99, 120, 150):
+            cmds = [(0, 1, rounds, N), (1, 1, 3, H2), (0, 1, 65, N), (1, 1, 1, N), (3, 1, 4, N), (0, 1, 1, N), (1, 2, 3, N), (3, 1, 3, ("Q", N, H2)), (1, 1, 1, N)]
+            prog = ";".join("%d,%d,%d,%s" % (ty, h, d, " ".join(tree_tokens(t))) for ty, h, d, t in cmds)
+            yield ("opt.cmp\t%s" % prog, ("selfeq",), {"op": "run unoptimised vs optimised level 2", "commands(type,syllables,dots,area)": prog,
+                                                         "note": "loop of %d rounds printing 'A' in each round" % rounds})
         for _ in range(300):
             n = rnd.randint(2, 7)
             cmds = []
